@@ -62,11 +62,21 @@ func (x c03Vectors) mine(w c01Effect, v ast.Expr) (mine, known bool) {
 		return false, false
 	}
 	if w.G == w.Caller {
+		if w.Up != nil {
+			return false, false
+		}
 		return rv == x.self, true
 	}
-	_, cv, bound := w.bindVar(rv)
+	arg, cv, bound := w.bindVar(rv)
 	if !bound {
 		return false, false
+	}
+	if w.Up != nil {
+		// the caller is itself a helper of the anchor: translate once more
+		if arg == nil {
+			return false, false
+		}
+		return x.mine(w.up(), arg)
 	}
 	return cv != nil && cv == x.self, true
 }
@@ -97,7 +107,7 @@ func (x c03Vectors) entryOf(w c01Effect, e ast.Expr) (c03Entry, bool) {
 	}
 	if w.G != w.Caller && w.At != nil {
 		if arg, _, bound := w.bindVar(varOf(w.G, resolveLocal(w.G, e))); bound && arg != nil {
-			return x.entryOf(c01Effect{Caller: w.Caller, G: w.Caller}, arg)
+			return x.entryOf(w.up(), arg)
 		}
 	}
 	return c03Entry{}, false
@@ -138,7 +148,7 @@ func (x c03Vectors) forkTest(w c01Effect, ft core.Fact) (c03Entry, bool, bool) {
 // forkOf: matcher for "the entry of (my | the other) vector is (not) fork-detected" in view w; boolean
 // locals holding the test are looked through.
 //
-// In the anchor itself a test may also be a call of a module predicate whose body is one returned
+// In the anchor itself, or in a helper of it, a test may also be a call of a module predicate whose body is one returned
 // boolean expression (`if hisSeq.observesNothing() { continue }` with `return seq.Seq == 0 &&
 // !seq.IsForkDetected()`): the edge then carries the facts that the predicate's result implies, read in
 // the predicate's view (its receiver and parameters stand for the anchor's expressions at the call).
@@ -153,12 +163,18 @@ func (x c03Vectors) forkOf(w c01Effect, mine, want bool) func(core.Fact) bool {
 		if in(w)(ft) {
 			return true
 		}
-		if w.G != w.Caller {
-			return false // views are one level deep
+		if w.Up != nil {
+			return false // predicates are followed from the anchor and from its helpers, not further
 		}
 		pv, subs, ok := c03PredicateFacts(w.G, ft)
 		if !ok {
 			return false
+		}
+		if w.G != w.Caller {
+			// a predicate called by a helper of the anchor: its operands translate into the helper's terms
+			// and from there into the anchor's
+			up := w
+			pv.Up = &up
 		}
 		m := c01FactThrough(pv.G, in(pv))
 		for _, sub := range subs {
@@ -324,11 +340,9 @@ func c03Absorb(c *core.Ctx) {
 			if !isIt || !it.FromZero || it.Coll == nil || !it.IsElem(cs.Call.Args[0], c01Resolver(sf)) {
 				continue
 			}
-			if ix, isIx := ast.Unparen(it.Coll).(*ast.IndexExpr); isIx {
-				_, pth := fieldPath(sf, ix.X)
-				if len(pth) >= 1 && pth[len(pth)-1] == "vecengine.BranchesInfo.BranchIDByCreators" {
-					okM = true
-				}
+			// the whole branch list of a creator: BranchIDByCreators[k], possibly behind an accessor
+			if c01IsBranchList(sf, it.Coll, nil, 2) {
+				okM = true
 			}
 		}
 		c.Check(okM, "a detected fork marks every branch of the creator", "provenance", sf.Pos(), "for each branch of BranchIDByCreators[creator]: SetForkDetected(branch)", "only some branches of a forking creator are marked")
